@@ -1,4 +1,6 @@
-import Tw.Proofs.NetPending
+import Tw.Proofs.NetLazy
+import Tw.Proofs.NetC01Final
+import Tw.Proofs.NetC01Total
 
 /-!
 # C20 — the multi-peer endpoint keeps peers isolated
@@ -176,6 +178,45 @@ theorem runFor_is_restriction (a : Nat) (h : History) (net net' : Net) (outs : L
         refine ⟨_, by simp only [runFor, hst, h1]; rw [hr.1], ?_⟩
         rw [← hr.2]; simp [h2]
 
+/-! ## results that are not drained -/
+
+/-- **A `ReceivePacket` that is dropped half-way** (the application pulled `k` events): everything
+`Net::feed` does — the connection's state including the advanced `ack`, the removal of the peer on a
+`Disconnect`, the datagrams sent, the warnings — is done, exactly as if the result had been drained;
+the application has seen a prefix of the events and the rest is lost to it (vital chunks among them
+are acknowledged and will not be resent: draining is the application's obligation, H3 of C01). -/
+theorem undrained_receive_packet (env : Env) (net net' : Net) (a : Nat) (rd : Option Bool → Option Packet)
+    (k : Nat) (r : Ret) (o' : Out) (h : stepLazy env net (.feed a rd) (some k) = .ok (net', r, o')) :
+    ∃ o, step env net (.feed a rd) = .ok (net', r, o) ∧ o'.sent = o.sent ∧ o'.warns = o.warns ∧
+      o'.events = o.events.take k := by
+  simp only [stepLazy] at h
+  cases hs : step env net (.feed a rd) with
+  | error f => simp [hs] at h
+  | ok v =>
+    obtain ⟨n, r0, o⟩ := v
+    simp only [hs, Except.ok.injEq, Prod.mk.injEq] at h
+    obtain ⟨h1, h2, h3⟩ := h
+    subst h1 h2 h3
+    exact ⟨o, rfl, rfl, rfl, rfl⟩
+
+/-- **A `Tick` that is never polled does nothing** (no peer ticks, nothing is sent, no deadline
+moves); polled at least once it is the drained tick, because the first `next()` runs through all
+peers when `Callback::send` cannot fail. -/
+theorem unpolled_tick (env : Env) (net : Net) (k : Nat) :
+    stepLazy env net .tick (some 0) = .ok (net, .unit, {}) ∧
+    stepLazy env net .tick (some (k + 1)) = step env net .tick ∧
+    stepLazy env net .tick none = step env net .tick := ⟨rfl, rfl, rfl⟩
+
+/-- **Histories with partly consumed results**: same final state, same datagrams, same warnings as
+the drained history (unpolled ticks removed); the events the application saw are a sub-sequence of
+the drained run's.  So every theorem of this file about `run` / `runFor` (`refinement`,
+`invariant_along_histories`, …) speaks about such applications too, through `drainedHist`. -/
+theorem lazy_histories (lh : LHistory) (net net' : Net) (outs' : List (Ret × Out))
+    (h : runLazy net lh = .ok (net', outs')) :
+    ∃ outs, run net (drainedHist lh) = .ok (net', outs) ∧ allSent outs' = allSent outs ∧
+      allWarns outs' = allWarns outs ∧ (allEvents outs').Sublist (allEvents outs) :=
+  runLazy_drained lh net net' outs' h
+
 /-! ## unknown addresses -/
 
 /-- **From an address without a peer, only a connect request on an accepting endpoint creates a
@@ -332,6 +373,68 @@ theorem new_peer_terminates_reachable (acc : Bool) (h : History) (net' : Net) (o
     (addr : Nat) (tok : Bool) : ∃ net1 pid, newPeer net' addr tok = .ok (net1, pid) :=
   newPeer_ok_of_room net' addr tok
     (run_next_lt h (Net.new acc) net' outs (by show Tw.Gen.Net.firstPeerId < idMod; decide) hr) hlen
+
+/-! ## composition with C01: reliable delivery through the endpoint -/
+
+/-- **C20 ∘ C01.**  One endpoint, one remote 0.6 connection at address `addr`, C01's adversarial
+network between them (any datagram either side ever sent to the other is delivered at any time, any
+number of times, in any order, or never), while the endpoint serves any other addresses and peers
+in any interleaving (`Tw.NetC01`, `Model/NetC01.lean`; scope: the first peer `addr` ever gets; no
+datagram with source `addr` that the remote did not send).  If the image of the schedule in the
+two-connection world of C01 is admissible there (C01's H1/H2: fewer than 512 unacknowledged vital
+chunks, no datagram delayed across 1024 sequence numbers), then
+
+* the vital chunks the endpoint handed to its application for the peer at `addr` are a **prefix of
+  what the remote's connection submitted** — nothing skipped, duplicated, reordered or altered —,
+* the vital chunks the remote's connection delivered are a prefix of what `Net::send` accepted for
+  that peer, and
+* the ghost history C01 speaks about is the endpoint's real history of datagrams to `addr`.
+
+Proof: the per-address simulation of this file (`isolation_step` through `step_sim` / `feed_sim`)
+identifies the endpoint's peer with the connection `b` of C01's world move by move — `Net::accept`
+with the delivery of the client's own connect request, which is the canned packet because every
+connect request a connection writes is `control 0 TOKEN_NONE connect` —, then `C01_conn6`. -/
+theorem vital_chunks_through_net (tl acc : Bool) (addr : Nat) (sched : List Tw.NetC01.NMove)
+    (w : Tw.NetC01.NW tl)
+    (hrun : Tw.NetC01.nwRun addr (Tw.NetC01.NW.init tl acc) sched = some w)
+    (hok : Tw.NetC01.nwOk addr (Tw.NetC01.NW.init tl acc) sched = true)
+    (hadm : Tw.NetSim.admissible (Tw.NetSim.World.init (Tw.NetSim.proto6 tl))
+      (Tw.NetC01.ghostSched addr (Tw.NetC01.NW.init tl acc) sched) = true) :
+    w.netVital <+: w.g.a.submittedVital ∧ w.g.a.deliveredVital <+: Tw.NetSim.vitalOf w.netSub ∧
+      w.netOut = w.g.b.out.map (·.pkt) :=
+  Tw.NetC01.net_c01 tl acc addr sched w hrun hok hadm
+
+/-- the coupling behind it, for any run: the connection object of the endpoint's peer at `addr` *is*
+the connection `b` of the ghost world, and the ghost's logs are the endpoint's -/
+theorem net_peer_is_c01_connection (tl acc : Bool) (addr : Nat) (sched : List Tw.NetC01.NMove)
+    (w : Tw.NetC01.NW tl)
+    (hrun : Tw.NetC01.nwRun addr (Tw.NetC01.NW.init tl acc) sched = some w)
+    (hok : Tw.NetC01.nwOk addr (Tw.NetC01.NW.init tl acc) sched = true) :
+    (∀ pid p, slot w.net.peers addr = some (pid, p) → p.conn = w.g.b.conn) ∧
+      w.netVital = w.g.b.deliveredVital ∧ w.netSub = w.g.b.submitted ∧
+      Tw.NetSim.run (Tw.NetSim.World.init (Tw.NetSim.proto6 tl))
+        (Tw.NetC01.ghostSched addr (Tw.NetC01.NW.init tl acc) sched) = some w.g := by
+  have hc := Tw.NetC01.coup_run sched _ w (Tw.NetC01.coup_init tl acc addr) hok hrun
+  exact ⟨fun pid p h => (hc.conn pid p h).1, hc.vital, hc.sub, Tw.NetC01.ghost_run sched _ w hrun⟩
+
+/-- the ghost world never ends a run of the composite world: in a coupled state a move fails only
+if the endpoint's own call fails (or its datagram does not exist / the call is outside the world's
+alphabet), or the address would get a second peer, or it is a move of the remote (whose own call or
+delivery may fail) -/
+theorem composite_run_ends_for_real_reasons (tl : Bool) (addr : Nat) (w : Tw.NetC01.NW tl)
+    (m : Tw.NetC01.NMove) (hc : Tw.NetC01.Coup addr w)
+    (hok : ∀ d op, m = .net d op → opOk w.net op = true) (h : Tw.NetC01.nwStep addr w m = none) :
+    Tw.NetC01.realStep tl addr w m = none ∨
+      (∃ net1 r o, Tw.NetC01.realStep tl addr w m = some (net1, r, o) ∧
+        (Tw.NetC01.created addr w net1 && w.born) = true) ∨
+      ((∃ d c, m = .remCall d c) ∨ ∃ i d alt, m = .toRemote i d alt) :=
+  Tw.NetC01.nwStep_none hc hok h
+
+example : (Tw.NetC01.nwRun 1 (Tw.NetC01.NW.init false true) Tw.NetC01.demoRun).map Tw.NetC01.summary =
+    some ([[7], [8]], [([5], true)], [[7], [8]], [[5]]) := by rfl
+example : Tw.NetC01.nwOk 1 (Tw.NetC01.NW.init false true) Tw.NetC01.demoRun = true := by decide
+example : Tw.NetSim.admissible (Tw.NetSim.World.init (Tw.NetSim.proto6 false))
+    (Tw.NetC01.ghostSched 1 (Tw.NetC01.NW.init false true) Tw.NetC01.demoRun) = true := by decide
 
 /-! ## non-vacuity, and the history of D22 -/
 
